@@ -192,7 +192,7 @@ Example C03_sqrt_nonvacuous :
 Proof. vm_compute. repeat split; discriminate. Qed.
 
 From Dashu Require Import Float.AddParamsProof.
-From DashuGen Require Import FloatAddParams.
+From DashuGen Require Import FloatLongParams FloatAddParams.   (* same order as in AddParamsProof.v *)
 
 (** the far-apart test, the precision of its stand-in, the extra digit on subtraction and the sqrt
     scaling exponent are re-read from float/src/add.rs / root.rs on every run *)
@@ -376,7 +376,7 @@ Example C03_div_nonvacuous :
 Proof. vm_compute. repeat split; discriminate. Qed.
 
 From Dashu Require Import Float.ContractProof Float.DivParamsProof.
-From DashuGen Require Import FloatDivParams.
+From DashuGen Require Import FloatLongParams FloatDivParams.   (* same order as in DivParamsProof.v *)
 
 (** soundness of the executable checker that judges every case (rational exact values): the exponent of x ... *)
 Theorem C03_rat_exp : forall B, 2 <= B -> forall N D, N <> 0 -> 0 < D ->
@@ -967,18 +967,18 @@ Theorem C03_add_bodies_regenerated : forall B digits_ub p m s1 e1 s2 e2 sg,
   (forall fuel rp sig e low lp d,
      option_map (fun '(s, e', l, k, _) => (s, e', l, k)) (rrs_gen_loop B fuel p m rp sig e low lp d) =
      expand_loop B fuel p rp sig e low lp d) /\
-  large_small_gen B digits_ub p m s1 e1 s2 e2 sg =
-    bind_approx (repr_add_large_small_fix B digits_ub p m s1 e1 s2 e2 sg) (norm_approx B) /\
-  small_large_gen B digits_ub p m s1 e1 s2 e2 sg =
-    bind_approx (repr_add_small_large_fix B digits_ub p m s1 e1 s2 e2 sg) (norm_approx B) /\
+  (e2 <= e1 -> large_small_gen B digits_ub p m s1 e1 s2 e2 sg =
+    bind_approx (repr_add_large_small_fix B digits_ub p m s1 e1 s2 e2 sg) (norm_approx B)) /\
+  (e1 <= e2 -> small_large_gen B digits_ub p m s1 e1 s2 e2 sg =
+    bind_approx (repr_add_small_large_fix B digits_ub p m s1 e1 s2 e2 sg) (norm_approx B)) /\
   ctx_add_gen B digits_ub p m s1 e1 s2 e2 = ctx_add_fix_n B digits_ub p m s1 e1 s2 e2 /\
   ctx_sub_gen B digits_ub p m s1 e1 s2 e2 = ctx_sub_fix_n B digits_ub p m s1 e1 s2 e2.
 Proof.
   intros B du p m s1 e1 s2 e2 sg. split; [|split; [|split; [|split; [|split]]]].
   - intros. apply rrs_gen_eq.
   - intros. apply rrs_gen_loop_eq.
-  - apply large_small_gen_eq.
-  - apply small_large_gen_eq.
+  - intros He. apply large_small_gen_eq. exact He.
+  - intros He. apply small_large_gen_eq. exact He.
   - apply ctx_add_gen_eq.
   - apply ctx_sub_gen_eq.
 Qed.
@@ -1000,3 +1000,62 @@ Proof.
   split; [exact D1|]. split; [exact D2|]. apply ctx_sqrt_gen_eq. exact HB.
 Qed.
 Print Assumptions C03_op_bodies_regenerated.
+
+(** Product for FBig (float/src/iter.rs): a chain of operator steps, each ONE rounding of the exact product of the
+    accumulated value and the next factor at the running precision *)
+From Coq Require Import List.
+From Dashu Require Import Float.IterModel Float.IterProof.
+
+Theorem C03_product_is_a_chain_of_roundings : forall B, 2 <= B -> forall m,
+  fbig_product B m nil = fbig_one /\
+  (forall xs x, fbig_product B m (xs ++ x :: nil) = fbig_mul_step B m (fbig_product B m xs) x) /\
+  (forall pa sa ea px sx ex, 1 <= Z.max pa px ->
+     let r := fbig_mul_step B m (pa, (sa, ea)) (px, (sx, ex)) in
+     fst r = Z.max pa px /\
+     exists a, approx_val a = snd r /\ rounded_sum B (Z.max pa px) m (sa * sx) (ea + ex) a) /\
+  (forall sa ea sx ex, fbig_mul_step B m (0, (sa, ea)) (0, (sx, ex)) = (0, normalize B (sa * sx) (ea + ex))) /\
+  (forall xs, fst (fbig_product B m xs) = fold_left Z.max (map fst xs) 0) /\
+  (forall p s e, dlen B s <= p -> fbig_product B m ((p, (s, e)) :: nil) = (Z.max 0 p, normalize B s e)).
+Proof.
+  intros B HB m. split; [reflexivity|]. split; [intros; apply fbig_product_snoc|].
+  split; [intros; apply (fbig_mul_step_rounded B HB); assumption|].
+  split; [intros; apply fbig_mul_step_unlimited|].
+  split; [intros; apply fbig_product_precision|]. intros. apply (fbig_product_single B HB). assumption.
+Qed.
+Print Assumptions C03_product_is_a_chain_of_roundings.
+
+(** exponents as machine integers: Context::mul / sqr / cubic with every exponent computation checked against an
+    isize of W bits return the unbounded model as soon as three exponents fit - the first sum, the exponent of the
+    rounded product, the exponent Repr::new gives it - and panic when the first sum does not fit *)
+From Dashu Require Import Float.ExpRangeModel Float.ExpRangeProof.
+
+Theorem C03_exponent_range_side_conditions : forall B, 2 <= B -> forall W, 1 <= W -> forall p m s1 e1 s2 e2,
+  (in_i W (e1 + e2) = true -> in_i W (approx_exp (ctx_mul_fix B p m s1 e1 s2 e2)) = true ->
+   in_i W (approx_exp (ctx_mul_fix_n B p m s1 e1 s2 e2)) = true ->
+   ctx_mul_chk B W p m s1 e1 s2 e2 = Ok (ctx_mul_fix_n B p m s1 e1 s2 e2)) /\
+  (in_i W (2 * e1) = true -> in_i W (approx_exp (ctx_sqr_fix B p m s1 e1)) = true ->
+   in_i W (approx_exp (ctx_sqr_fix_n B p m s1 e1)) = true -> ctx_sqr_chk B W p m s1 e1 = Ok (ctx_sqr_fix_n B p m s1 e1)) /\
+  (in_i W (3 * e1) = true -> in_i W (approx_exp (ctx_cubic_fix B p m s1 e1)) = true ->
+   in_i W (approx_exp (ctx_cubic_fix_n B p m s1 e1)) = true -> ctx_cubic_chk B W p m s1 e1 = Ok (ctx_cubic_fix_n B p m s1 e1)) /\
+  (in_i W (e1 + e2) = false -> ctx_mul_chk B W p m s1 e1 s2 e2 = Panic Undocumented) /\
+  (in_i W (2 * e1) = false -> ctx_sqr_chk B W p m s1 e1 = Panic Undocumented) /\
+  (in_i W (3 * e1) = false -> ctx_cubic_chk B W p m s1 e1 = Panic Undocumented).
+Proof.
+  intros B HB W HW p m s1 e1 s2 e2.
+  destruct (ctx_sqr_cubic_chk_ok B HB W HW p m s1 e1) as [S C].
+  destruct (ctx_mul_chk_overflow B W p m s1 e1 s2 e2) as (O1 & O2 & O3).
+  split; [apply (ctx_mul_chk_ok B HB W HW)|]. split; [exact S|]. split; [exact C|]. split; [exact O1|]. split; [exact O2 | exact O3].
+Qed.
+Print Assumptions C03_exponent_range_side_conditions.
+
+Example C03_r4_nonvacuous :
+  (let mx := 2 ^ 63 - 1 in
+   ctx_mul_chk 10 64 3 MHalfEven 2 mx 3 1 = Panic Undocumented /\
+   ctx_mul_chk 10 64 3 MHalfEven 999 (mx - 2) 999 0 = Panic Undocumented /\ in_i 64 (mx - 2 + 0) = true /\
+   ctx_mul_chk 10 64 3 MHalfEven 5 mx 2 0 = Panic Undocumented /\
+   ctx_mul_chk 10 64 3 MHalfEven 2 (mx - 1) 3 1 = Ok (AExact 6 mx)) /\
+  fbig_product 10 MHalfEven ((2, (15, 0)) :: (3, (25, -1)) :: (2, (7, 0)) :: nil) = (3, (262, 0)) /\
+  fbig_product 10 MHalfEven ((0, (123456, 0)) :: (0, (1001, 0)) :: nil) = (0, (123579456, 0)) /\
+  expand_loop 10 5 2 3 1 5 (-99999) 5 1 = Some (1, 0, 0, 0) /\
+  head_ok 10 2 10 (-5) = false /\ head_ok 10 2 11 (-5) = true /\ head_ok 10 2 9 5 = false.
+Proof. vm_compute. repeat split. Qed.
